@@ -6,4 +6,9 @@ export CARGO_NET_OFFLINE=true
 mkdir -p logs evidence replays
 cp /repo/Cargo.lock harness/Cargo.lock
 ( cd harness && cargo build --release --offline --target-dir "$(pwd)/../target" )
+# warm the Miri build of the C05 leg (dependencies are interpreted, not compiled, but the
+# sysroot and the crate metadata are prepared once here instead of inside the first check)
+cp /repo/Cargo.lock miri/Cargo.lock
+( cd miri && MIRIFLAGS="-Zmiri-disable-isolation -Zmiri-tree-borrows -Zmiri-ignore-leaks -Zmiri-deterministic-floats" \
+    cargo +nightly miri run --offline --target-dir "$(pwd)/../target/miri" -- 0 > ../logs/setup.miri.log 2>&1 ) || echo "warning: Miri warm-up failed (see logs/setup.miri.log); C05 will report it as inconclusive"
 echo "setup ok"
